@@ -16,6 +16,8 @@ model describes that setting, and the theorems are stated for it (`treat = false
 -/
 import Gribi.Gen.HandleModifyRequest
 import Gribi.Gen.HandleModifyResponse
+import Gribi.Gen.IsConverged
+import Gribi.Gen.ClientQ
 import Gribi.Model.Client
 namespace Gribi.GenEquiv.Client
 open Gribi Gribi.Gen
@@ -456,10 +458,87 @@ theorem gen_handleModifyResponse {s : Cl.State} {sp : Option SessionParameters} 
       exact ⟨hkeep _ _ _ _ _ _ h3.1, by rw [← h3.2, hok]⟩
 
 end
+
+/-! ### convergence -/
+
+/-- `pendingQueue.Len` counts the pending operations and the two markers -/
+theorem gen_pendingQueueLen (q : PendingQueue) :
+    Gen.pendingQueueLen (some q) = q.Ops.length + (if q.Election.isSome then 1 else 0) + (if q.SessionParams.isSome then 1 else 0) := by
+  obtain ⟨ops, el, sp⟩ := q
+  unfold Gen.pendingQueueLen
+  cases sp <;> cases el <;> simp <;> omega
+
+/-- `isConverged` is the model's test: nothing queued to be sent, nothing pending -/
+theorem gen_isConverged (f : OpDetailsResults → Cl.OpInfo) (opFrom : Nat → Nat) (sendq : List ModifyRequestC) (q : PendingQueue) :
+    Gen.isConverged sendq (some q) =
+      decide (sendq.map (absReq f opFrom) = [] ∧ absPend f opFrom q.Ops = [] ∧ (!q.Election.isSome) = true ∧ (!q.SessionParams.isSome) = true) := by
+  obtain ⟨ops, el, sp⟩ := q
+  unfold Gen.isConverged
+  rw [gen_pendingQueueLen]
+  rw [Bool.eq_iff_iff]
+  cases sendq <;> cases ops <;> cases el <;> cases sp <;> simp [absPend]
+
+/-- with it, one round of `AwaitConverged` on an error-free client is the model's `await` -/
+theorem gen_await_converged (f : OpDetailsResults → Cl.OpInfo) (opFrom : Nat → Nat) (s : Cl.State) (sendq : List ModifyRequestC) (q : PendingQueue)
+    (hq : s.sendq = sendq.map (absReq f opFrom)) (hp : s.pendOps = absPend f opFrom q.Ops)
+    (he : s.pendElec = q.Election.isSome) (hpp : s.pendParams = q.SessionParams.isSome)
+    (hs : s.sendErrs = 0) (hr : s.recvErrs = 0) :
+    Cl.await s = if Gen.isConverged sendq (some q) then .converged else .notYet := by
+  rw [gen_isConverged f opFrom]
+  unfold Cl.await
+  simp [hq, hp, he, hpp, hs, hr]
+
+
+/-! ### `Q` -/
+
+def isSendErr : Eff → Bool
+  | .addSendErr _ => true
+  | _ => false
+
+/-- `Q` = the model's `q`: the accounting of `handleModifyRequest`, an error recorded as a send
+error, and the request appended to the send queue exactly when the client is not sending yet
+(otherwise it is handed to the sender) -/
+theorem gen_clientQ (f : OpDetailsResults → Cl.OpInfo) (opFrom : Nat → Nat) {s : Cl.State} {sp : Option SessionParameters}
+    {pend : Map Nat PendingOp} {pe : Option ElectionReqDetails} {pp : Option SessionParamReqDetails} {rq : List (Option COpResult)}
+    (h : Rel f opFrom s sp pend pe pp rq) (sendq : List ModifyRequestC) (hq : s.sendq = sendq.map (absReq f opFrom))
+    (m : ModifyRequestC) (now : Int) :
+    Rel f opFrom (Cl.q s (absReq f opFrom m)) sp
+        (Gen.clientQ m now s.sending pend pe pp sendq).1 (Gen.clientQ m now s.sending pend pe pp sendq).2.1
+        (Gen.clientQ m now s.sending pend pe pp sendq).2.2.1 rq ∧
+      (Cl.q s (absReq f opFrom m)).sendq = (Gen.clientQ m now s.sending pend pe pp sendq).2.2.2.1.map (absReq f opFrom) ∧
+      (Cl.q s (absReq f opFrom m)).sending = s.sending ∧
+      (Cl.q s (absReq f opFrom m)).sendErrs = s.sendErrs + ((Gen.clientQ m now s.sending pend pe pp sendq).2.2.2.2.filter isSendErr).length ∧
+      (Eff.clientq (some m) ∈ (Gen.clientQ m now s.sending pend pe pp sendq).2.2.2.2 ↔ s.sending = true) := by
+  have hm := gen_handleModifyRequest f opFrom m now pend pe pp s.accepted
+  obtain ⟨hf, hp, he, hpp, hr⟩ := h
+  simp only at hm
+  obtain ⟨h1, h2, h3, h4⟩ := hm
+  unfold Gen.clientQ Cl.q
+  simp only [hp]
+  cases hok : (Cl.addOps (absPend f opFrom pend) s.accepted (absReq f opFrom m).ops).2.2 with
+  | true =>
+    rw [hok] at h2 h3
+    have hnone : (Gen.handleModifyRequest m now pend pe pp).1 = none := by
+      cases hx : (Gen.handleModifyRequest m now pend pe pp).1 <;> simp_all
+    obtain ⟨h3a, h3b⟩ := h3 rfl
+    simp only [hnone]
+    cases hs : s.sending <;>
+      (refine ⟨⟨hf, h1.symm, ?_, ?_, hr⟩, ?_, ?_, ?_, ?_⟩ <;> simp_all [isSendErr])
+  | false =>
+    rw [hok] at h2 h4
+    obtain ⟨e, hsome⟩ : ∃ e, (Gen.handleModifyRequest m now pend pe pp).1 = some e := by
+      cases hx : (Gen.handleModifyRequest m now pend pe pp).1 <;> simp_all
+    obtain ⟨h4a, h4b⟩ := h4 rfl
+    simp only [hsome]
+    cases hs : s.sending <;>
+      (refine ⟨⟨hf, h1.symm, ?_, ?_, hr⟩, ?_, ?_, ?_, ?_⟩ <;> first | rfl | simp_all)
+
 theorem gen_client_translated :
     Gen.addPendingOp_problem = none ∧ Gen.updatePendingElection_problem = none ∧ Gen.pendingSessionParams_problem = none ∧
     Gen.handleModifyRequest_problem = none ∧ Gen.clearPendingElection_problem = none ∧
     Gen.clearPendingSessionParams_problem = none ∧ Gen.clearPendingOp_problem = none ∧
-    Gen.handleModifyResponse_problem = none := ⟨rfl, rfl, rfl, rfl, rfl, rfl, rfl, rfl⟩
+    Gen.handleModifyResponse_problem = none ∧ Gen.pendingQueueLen_problem = none ∧ Gen.isConverged_problem = none ∧
+    Gen.clientQ_problem = none :=
+  ⟨rfl, rfl, rfl, rfl, rfl, rfl, rfl, rfl, rfl, rfl, rfl⟩
 
 end Gribi.GenEquiv.Client
